@@ -303,6 +303,30 @@ func timingFamilies(_ bool) []family {
 		"<a b=c>", "<a b>", "<a b=c d=e>", "<a/b/c>", "a<b", "<a href='&#106;'>", "<!-->", "<!--->", "<%%>", "<a\x00>", "' b='c", "\" b=\"c", "` b=`c", "b=c "} {
 		xs("closed:"+u, "", u, "")
 	}
+	// every opener followed by a foreign (or its own) terminator, repeated: a state that falls back to another
+	// construct's terminator, or re-scans to the end of input for each opener, is re-entered once per unit
+	for _, o := range []string{"<%", "<!--", "<![CDATA[", "<!", "<?", "</!", "<a b='", "<a b=\"", "<a b=`", "<a b=", "<a "} {
+		for _, t := range []string{">", "%>", "-->", "]]>", "'", "\"", "`", "--!>", "/>"} {
+			xs("cross:"+o+"a"+t, "", o+"a"+t, "")
+		}
+	}
+	for _, o := range []string{"'", "\"", "`", "/*", "$$", "$t$", "[", "q'(", "x'", "n'", "u&'", "@`", "--", "#", "e'"} {
+		for _, t := range []string{"'", "\"", "`", "*/", "$$", "$t$", "]", ")'", "\n", " "} {
+			sq("cross:"+o+"a"+t, "", o+"a"+t+" ", "")
+		}
+	}
+	// one opener followed by a long run of its closing byte, in both parities of the run length (n is a power
+	// of two, so one extra leading byte flips the parity of the run)
+	for _, oc := range [][2]string{{"[", "]"}, {"'", "'"}, {"\"", "\""}, {"`", "`"}, {"$$", "$"}, {"$t$", "$"}, {"q'(", ")"}, {"q'(", "'"}, {"/*", "*"}, {"/*", "/"},
+		{"x'", "'"}, {"@`", "`"}, {"'\\", "\\"}, {"{", "}"}, {"(", ")"}} {
+		sq("run:"+oc[0]+"|"+oc[1], oc[0], oc[1], "")
+		sq("run+1:"+oc[0]+"|"+oc[1], "1"+oc[0], oc[1], "")
+	}
+	for _, oc := range [][2]string{{"<!--", "-"}, {"<!--", ">"}, {"<%", "%"}, {"<%", ">"}, {"<![CDATA[", "]"}, {"<![CDATA[", ">"}, {"<a b='", "'"}, {"<a b=\"", "\""}, {"<a ", "/"},
+		{"<a ", ">"}, {"<a b=", "="}, {"<", "\x00"}, {"</", "\x00"}, {"<a", "/"}, {"<!", "-"}, {"<a href=\"", "&"}, {"<a href=\"", ";"}} {
+		xs("run:"+oc[0]+"|"+oc[1], oc[0], oc[1], "")
+		xs("run+1:"+oc[0]+"|"+oc[1], "x"+oc[0], oc[1], "")
+	}
 	return fams
 }
 
